@@ -97,6 +97,7 @@ func pickPlan(rc *core.RunCtx, faultsOnly bool) *refexec.Plan {
 		p.NullPM = []int{0, 100, 250}[t.Choose(3, "nullpm")]
 		p.ErrPM = []int{0, 80, 200}[t.Choose(3, "errpm")]
 		p.DirPM = []int{0, 300}[t.Choose(2, "dirpm")]
+		p.TagPanicPM = []int{0, 0, 150}[t.Choose(3, "tagpanicpm")]
 	}
 	return p
 }
@@ -110,7 +111,7 @@ func sigOf(parts ...any) string {
 }
 
 func planDesc(p *refexec.Plan) map[string]any {
-	return map[string]any{"seed": p.Seed, "null_pm": p.NullPM, "err_pm": p.ErrPM, "dir_pm": p.DirPM, "max_list": p.MaxList, "faults": p.Faults, "dir_faults": p.DirFaults}
+	return map[string]any{"seed": p.Seed, "null_pm": p.NullPM, "err_pm": p.ErrPM, "dir_pm": p.DirPM, "max_list": p.MaxList, "tag_panic_pm": p.TagPanicPM, "faults": p.Faults, "dir_faults": p.DirFaults}
 }
 
 // checkAgainstReference is the C01 oracle on a finished single-payload execution.
@@ -337,7 +338,7 @@ func copyPlan(p *refexec.Plan) *refexec.Plan {
 }
 
 type faultPoint struct {
-	Kind string // res | dir | marshal
+	Kind string // res | dir | marshal | eager
 	Path string
 }
 
@@ -404,6 +405,11 @@ func runC04(rc *core.RunCtx) {
 	for _, p := range ref0.DirCalls {
 		points = append(points, faultPoint{"dir", p})
 	}
+	// values completed through a user marshal function (scalar Tag, enum Tone; single, and each
+	// list element): the function panics while the value is completed
+	for _, p := range ref0.EagerPoints {
+		points = append(points, faultPoint{"eager", p})
+	}
 	// serialisation-time fault points: Blob-valued resolver positions that produced a value
 	if !deferOp {
 		for _, p := range ref0.Resolved {
@@ -432,11 +438,14 @@ func runC04(rc *core.RunCtx) {
 			return "directive error at " + fp.Path
 		}
 		plan.Faults[fp.Path] = refexec.KMarshalPanic
+		if fp.Kind == "eager" {
+			return "marshal function panic at " + fp.Path
+		}
 		return "marshaler panic at " + fp.Path
 	}
 	for _, fp := range points {
 		for _, panicKind := range []bool{false, true} {
-			if fp.Kind == "marshal" && !panicKind {
+			if (fp.Kind == "marshal" || fp.Kind == "eager") && !panicKind {
 				continue
 			}
 			plan := copyPlan(base)
